@@ -182,6 +182,50 @@ pub fn run_check(ctx: &Ctx) -> Report {
             }
         }
     }
+    // directed: programs whose bytecode is just below / above the 16-bit limit of jump operands, with a jumping construct at the end
+    // or around everything; each must be rejected by the compiler or be safe on every path
+    {
+        let tails: [&str; 7] = [
+            "als n > 0 { n = 1 }",
+            "als n > 0 { n = 1 } anders { n = 2 }",
+            "zolang n > 7 { n = n - 9 }",
+            "functie f() { 1 } f()",
+            "zolang ja { stop }",
+            "stel i = 0; zolang i < 3 { i += 1; als i == 2 { volgende } }",
+            "n",
+        ];
+        let wraps: [(&str, &str); 4] = [("", ""), ("als ja { ", " }"), ("stel w = 0; zolang w < 1 { w += 1; ", " }"), ("functie g() { stel n = 0; ", " n } g()")];
+        let build = |fill: usize, tail: &str, wrap: (&str, &str)| format!("stel n = 0; {}{}{}; {}", wrap.0, "n = n + 1; ".repeat(fill), wrap.1, tail);
+        for wrap in wraps {
+            // the largest number of filler statements the compiler still accepts with this wrapper
+            let (mut lo, mut hi) = (1usize, 9000usize);
+            while lo < hi {
+                let mid = (lo + hi + 1) / 2;
+                let ok = matches!(std::panic::catch_unwind(|| compile(&build(mid, "n", wrap))), Ok(Ok(_)));
+                if ok {
+                    lo = mid;
+                } else {
+                    hi = mid - 1;
+                }
+            }
+            for fill in lo.saturating_sub(4)..=lo + 4 {
+                for tail in tails {
+                    let src = build(fill, tail, wrap);
+                    rep.eval();
+                    rep.count("inputs:size-limit-sweep");
+                    match check_source_budget(&src, &table, 2_000_000) {
+                        Ok(c) => {
+                            if c.compiled {
+                                rep.count("compiled:size-limit-sweep");
+                                rep.nontrivial(&format!("size-sweep {fill} {tail} {}", wrap.0));
+                            }
+                        }
+                        Err(f) => rep.violation(Violation { property: "C02".into(), driver: "size-limit-sweep".into(), class: f.0, case: f.1, expected: f.2, observed: f.3 }),
+                    }
+                }
+            }
+        }
+    }
     let cases = ctx.pick(600_000u32, 12_000_000u32) / ctx.shards as u32;
     let seed = ctx.seed;
     par_shards(ctx.shards, rep, move |shard, r| {
